@@ -58,9 +58,14 @@ UpdObs(sn, calls) ==
   LET ks == LastIdx(calls, LAMBDA c : IsStatus(c))
       kc == LastIdx(calls, LAMBDA c : IsRevCreate(c))
       kr == LastIdx(calls, LAMBDA c : IsRevUpdate(c) /\ Det(c) = "renumber")
+      \* neither written nor made in this reconcile: the recorded one if it is a listed revision carrying the set's
+      \* template, otherwise the newest listed revision that carries it (C08: the update revision mirrors the template)
+      same == {x \in SeqToSet(Listed(sn.revs)) : x.tmpl = sn.set.tmpl}
   IN IF ks > 0 THEN calls[ks][7][2]
      ELSE IF kc > 0 THEN Name(calls[kc])
      ELSE IF kr > 0 THEN Name(calls[kr])
+     ELSE IF \E x \in same : x.name = sn.set.status.updRev THEN sn.set.status.updRev
+     ELSE IF same # {} THEN (CHOOSE x \in same : \A y \in same : y = x \/ RevLess(y, x)).name
      ELSE sn.set.status.updRev
 \* the current revision the reconcile worked with: the recorded one if it names a listed revision
 ListedNames(sn) == {x.name : x \in SeqToSet(Listed(sn.revs))}
@@ -101,7 +106,7 @@ DeleteJustified(sn, calls, k) ==
               j > 0 /\ IsPodCreate(calls[j]) /\ Name(calls[j]) = Name(calls[k])
            \/ \E j \in (k + 1)..Len(calls) : IsClaimCall(calls[j]) /\ ~OK(calls[j])   \* claim failed: no pod create (C06)
      \/ /\ sn.set.strat = "RollingUpdate" /\ t.ord >= Partition(sn) /\ t.rev # u  \* (c)
-C03(sn, calls) == \A k \in Idx(calls) : IsPodDelete(calls[k]) => DeleteJustified(sn, calls, k)
+C03Raw(sn, calls) == \A k \in Idx(calls) : IsPodDelete(calls[k]) => DeleteJustified(sn, calls, k)
 
 (* C04 - creates only at vacant desired ordinals                                       *)
 CreateJustified(sn, calls, k) ==
@@ -112,7 +117,7 @@ CreateJustified(sn, calls, k) ==
   /\ \/ occ = {}
      \/ \A p \in occ : DeadP(p) /\ DeletedBefore(calls, k, p.name) # {}
   /\ CreatedBefore(calls, k, Name(c)) = {}
-C04(sn, calls) == \A k \in Idx(calls) : IsPodCreate(calls[k]) => CreateJustified(sn, calls, k)
+C04Raw(sn, calls) == \A k \in Idx(calls) : IsPodCreate(calls[k]) => CreateJustified(sn, calls, k)
 
 (* C05 - OrderedReady discipline                                                       *)
 TouchedOrds(sn, calls) ==
@@ -121,7 +126,7 @@ TouchedOrds(sn, calls) ==
 AllDesiredHealthy(sn)  == \A j \in D(sn) : PartAt(sn, j) # {} /\ \A p \in PartAt(sn, j) : HealthyP(p)
 AllDesiredRunReady(sn) == \A j \in D(sn) : PartAt(sn, j) # {} /\ \A p \in PartAt(sn, j) : RunReadyP(p)
 CondemnedPresent(sn)   == {p \in Parts(sn) : p.ord \notin D(sn)}
-C05(sn, calls) ==
+C05Raw(sn, calls) ==
   sn.set.policy # "Parallel" =>
     /\ Cardinality(TouchedOrds(sn, calls)) <= 1
     /\ \A k \in Idx(calls) :
@@ -136,7 +141,7 @@ C05(sn, calls) ==
 
 (* C07 - rolling update, partition, OnDelete                                           *)
 UpdateDeletes(sn, calls) == {k \in Idx(calls) : IsPodDelete(calls[k]) /\ IsUpdateDelete(sn, calls, k)}
-C07(sn, calls) ==
+C07Raw(sn, calls) ==
   LET u == UpdObs(sn, calls) cu == CurObs(sn, calls) IN
   /\ Cardinality(UpdateDeletes(sn, calls)) <= 1
   /\ \A k \in UpdateDeletes(sn, calls) :
@@ -156,7 +161,7 @@ C07(sn, calls) ==
 
 (* C14 - Parallel policy                                                               *)
 FaultFree(calls) == \A k \in Idx(calls) : OK(calls[k])
-C14(sn, calls, res) ==
+C14Raw(sn, calls, res) ==
   (sn.set.policy = "Parallel" /\ ~sn.set.deleting /\ ~sn.set.paused /\ sn.set.cached /\ sn.set.selectorOK
      /\ FaultFree(calls) /\ res = "ok") =>
     /\ {Ints(calls[k])[1] : k \in {j \in Idx(calls) : IsPodCreate(calls[j])}}
@@ -185,7 +190,7 @@ StatusWriteOK(sn, calls, k) ==
   \* the total counts exactly the pods that are part of the set (C10: nothing else is counted)
   /\ w.replicas = Cardinality(Parts(sn)) + Cardinality({j \in CreatesOK(calls) : j < k})
                    - Cardinality({j \in 1..(k - 1) : IsPodDelete(calls[j]) /\ OK(calls[j]) /\ IsDeadDelete(sn, calls, j)})
-C12(sn, calls) == \A k \in Idx(calls) : IsStatus(calls[k]) => StatusWriteOK(sn, calls, k)
+C12Raw(sn, calls) == \A k \in Idx(calls) : IsStatus(calls[k]) => StatusWriteOK(sn, calls, k)
 
 (* C13 - history truncation                                                            *)
 RevNamed(sn, n) == {x \in SeqToSet(sn.revs) : x.name = n}
@@ -193,7 +198,7 @@ Live(sn, calls) == {CurObs(sn, calls), UpdObs(sn, calls)} \cup {p.rev : p \in Pa
 OwnRevs(sn)     == {x \in SeqToSet(Listed(sn.revs)) : TRUE}             \* owned by the set or adopted by this reconcile
 Unused(sn, calls) == {x \in OwnRevs(sn) : x.name \notin Live(sn, calls)}
 RevDeletes(calls) == {k \in Idx(calls) : IsRevDelete(calls[k])}
-C13(sn, calls, res) ==
+C13Raw(sn, calls, res) ==
   LET un  == Unused(sn, calls)
       del == {Name(calls[k]) : k \in RevDeletes(calls)}
       lim == sn.set.histLimit IN
@@ -209,7 +214,7 @@ C13(sn, calls, res) ==
 (* C10 - ownership                                                                     *)
 ForeignPod(p) == p.owner \in {"other", "stale"}
 ForeignRev(x) == x.owner \in {"other", "stale"}
-C10(sn, calls, res) ==
+C10Raw(sn, calls, res) ==
   /\ \A k \in Idx(calls) :
        LET c == calls[k] IN
        \* nothing controlled by someone else is written
@@ -234,7 +239,7 @@ C10(sn, calls, res) ==
   /\ sn.cacheIntact
 
 (* C11 - deleted and paused sets                                                       *)
-C11(sn, calls) ==
+C11Raw(sn, calls) ==
   /\ sn.set.paused => \A k \in Idx(calls) : ~IsWrite(calls[k])
   /\ sn.set.deleting =>
        \A k \in Idx(calls) :
@@ -245,6 +250,40 @@ C11(sn, calls) ==
 
 (* C15 - no panic                                                                      *)
 C15(res) == res \in {"ok", "err", "died"}      \* "died" is a process death injected by the harness, not a panic
+
+(* C06 - identity / storage / claims first (per-reconcile clauses)                     *)
+ClaimsOf(sn, i) == {ClaimName(sn.set, sn.set.claims[k], i) : k \in 1..Len(sn.set.claims)}
+C06Raw(sn, calls) ==
+  /\ \A k \in Idx(calls) :
+       LET c == calls[k] IN
+       /\ IsClaimCall(c) => Verb(c) = "create"                            \* never delete / update / patch a claim
+       /\ IsPodCreate(c) =>
+            LET i == Ints(c)[1] IN
+            /\ Ints(c)[2] = 1                                             \* identity + owner + volumes as C06 states
+            \* every claim of the ordinal exists (cache) or was created earlier in this reconcile
+            /\ \A n \in ClaimsOf(sn, i) :
+                  n \in sn.pvcs \/ \E j \in 1..(k - 1) : IsClaimCall(calls[j]) /\ Name(calls[j]) = n
+                                                         /\ Result(calls[j]) \in {"ok", "AlreadyExists"}
+            \* a failed claim call prevents the pod
+            /\ ~ \E j \in 1..(k - 1) : IsClaimCall(calls[j]) /\ Name(calls[j]) \in ClaimsOf(sn, i)
+                                       /\ Result(calls[j]) \notin {"ok", "AlreadyExists"}
+       /\ (IsClaimCall(c) /\ Verb(c) = "create") => c[7][1] = "claim-ok"   \* right namespace and selector labels
+\* An orphan whose adoption answered NotFound is gone as far as the controller can tell: it is not part of the set for
+\* the rest of that reconcile.  Every property is evaluated on the snapshot without such pods.
+GoneOrphans(calls) == {Name(calls[k]) : k \in {j \in Idx(calls) : IsPodPatch(calls[j]) /\ Det(calls[j]) = "adopt"
+                                                     /\ Result(calls[j]) \in {"NotFound", "NotFoundApplied"}}}
+Eff(sn, calls) == IF GoneOrphans(calls) = {} THEN sn
+                  ELSE [sn EXCEPT !.pods = SelectSeq(@, LAMBDA p : p.name \notin GoneOrphans(calls))]
+C03(sn, calls) == C03Raw(Eff(sn, calls), calls)
+C04(sn, calls) == C04Raw(Eff(sn, calls), calls)
+C05(sn, calls) == C05Raw(Eff(sn, calls), calls)
+C06(sn, calls) == C06Raw(Eff(sn, calls), calls)
+C07(sn, calls) == C07Raw(Eff(sn, calls), calls)
+C10(sn, calls, res) == C10Raw(sn, calls, res)
+C11(sn, calls) == C11Raw(sn, calls)
+C12(sn, calls) == C12Raw(Eff(sn, calls), calls)
+C13(sn, calls, res) == C13Raw(Eff(sn, calls), calls, res)
+C14(sn, calls, res) == C14Raw(Eff(sn, calls), calls, res)
 
 (* C09 - a failed call is reported (per-reconcile clauses; recovery is a history clause) *)
 LaterOK(calls, k, P(_)) == \E j \in (k + 1)..Len(calls) : P(calls[j]) /\ Name(calls[j]) = Name(calls[k]) /\ OK(calls[j])
@@ -266,22 +305,4 @@ C09(sn, calls, res) ==
   /\ res = "died" => \E f \in SeqToSet(sn.faults) : f.die          \* only an injected process death ends a reconcile that way
   \* what a failed or interrupted reconcile leaves behind breaks none of the safety rules
   /\ C03(sn, calls) /\ C04(sn, calls) /\ C05(sn, calls) /\ C10(sn, calls, res) /\ C11(sn, calls) /\ C12(sn, calls) /\ C13(sn, calls, res)
-
-(* C06 - identity / storage / claims first (per-reconcile clauses)                     *)
-ClaimsOf(sn, i) == {ClaimName(sn.set, sn.set.claims[k], i) : k \in 1..Len(sn.set.claims)}
-C06(sn, calls) ==
-  /\ \A k \in Idx(calls) :
-       LET c == calls[k] IN
-       /\ IsClaimCall(c) => Verb(c) = "create"                            \* never delete / update / patch a claim
-       /\ IsPodCreate(c) =>
-            LET i == Ints(c)[1] IN
-            /\ Ints(c)[2] = 1                                             \* identity + owner + volumes as C06 states
-            \* every claim of the ordinal exists (cache) or was created earlier in this reconcile
-            /\ \A n \in ClaimsOf(sn, i) :
-                  n \in sn.pvcs \/ \E j \in 1..(k - 1) : IsClaimCall(calls[j]) /\ Name(calls[j]) = n
-                                                         /\ Result(calls[j]) \in {"ok", "AlreadyExists"}
-            \* a failed claim call prevents the pod
-            /\ ~ \E j \in 1..(k - 1) : IsClaimCall(calls[j]) /\ Name(calls[j]) \in ClaimsOf(sn, i)
-                                       /\ Result(calls[j]) \notin {"ok", "AlreadyExists"}
-       /\ (IsClaimCall(c) /\ Verb(c) = "create") => c[7][1] = "claim-ok"   \* right namespace and selector labels
 =======================================================================================
